@@ -66,7 +66,8 @@ func (c *Constraints) transform(v reflect.Value) {
 
 		case reflect.String:
 			// can only apply upper transform to string
-			v.SetString(strings.ToUpper(v.Interface().(string)))
+			// (v.String() rather than a type assertion: the field may have a named string type)
+			v.SetString(strings.ToUpper(v.String()))
 		}
 	}
 
@@ -86,7 +87,7 @@ func (c *Constraints) transform(v reflect.Value) {
 
 		case reflect.String:
 			// can only apply upper transform to string
-			v.SetString(strings.ToLower(v.Interface().(string)))
+			v.SetString(strings.ToLower(v.String()))
 		}
 	}
 }
